@@ -83,6 +83,14 @@ def cases(draw):
             pats = [{'ex': 'ZQ'}]
             during = []
             silent = False
+        poll = False
+        if mode == 'async' and not eof and not late and i > 0 and draw(st.integers(0, 4)) == 0:
+            # a poll: timeout=0 while output (written before the call) is waiting in the descriptor
+            poll = True
+            during = []
+            silent = False
+            if not any(pre):
+                pre = [draw(e1.streams(text_mode, 5)).encode('utf-8') or b'ab']
         none_timeout = False
         if mode == 'sync' and not eof and i > 0 and draw(st.integers(0, 3)) == 0:
             # a blocking call without a time limit that has to wait: its match is written by a timer thread 50 ms in
@@ -93,7 +101,7 @@ def cases(draw):
         calls.append({'mode': mode, 'op': 'expect_exact' if (exact or late) else draw(st.sampled_from(['expect', 'expect_list'])),
                       'pats': pats, 'w': (draw(st.sampled_from([None, -1, 5, 20])) if none_timeout else draw(e1.windows())),
                       'pre': pre, 'during': during, 'eof': eof, 'silent': silent,
-                      'cut_chars': cut, 'late': late, 'none_timeout': none_timeout})
+                      'cut_chars': cut, 'late': late, 'none_timeout': none_timeout, 'poll': poll})
         if eof:
             break
     return {'enc': 'utf-8' if text_mode else None, 'maxread': draw(st.sampled_from([2000, 2000, 3])), 'calls': calls,
@@ -197,6 +205,8 @@ def check_case(case, col=None):
             T = 0.06 if (c['silent'] or not has_data) else 0.3
             if c.get('late'):
                 T = 0.05
+            if c.get('poll'):
+                T = 0
             nat = do_call_args(c, text_mode, sp)
             method = {'expect': sp.expect, 'expect_exact': sp.expect_exact, 'expect_list': sp.expect_list}[c['op']]
             ret = exc = None
